@@ -528,3 +528,12 @@ m('c08-int-numerator-as-cast', ['C08'], ':shortcuts', [
                     BigDecimal::from(self as i64) / denom
                 }""")],
   'u64/u128/i128 numerators are truncated through `as i64`')
+m('c09-rem-modpow-shortcut', ['C09'], 'Rem<&BigDecimal> for &BigDecimal', [
+  ('src/impl_ops_rem.rs', """            Ordering::Less => {
+                let scaled_num = num * ten_to_the((scale - self.scale) as u64);
+                scaled_num % den
+            }""", """            Ordering::Less => {
+                let ten_pow = BigInt::from(10).modpow(&BigInt::from((scale - self.scale) as u64), den);
+                (num * ten_pow) % den
+            }""")],
+  'modular-exponentiation shortcut: modpow floors, so negative divisors give a wrong remainder')
